@@ -1,17 +1,130 @@
 import H4.Rle
+import H4.Gen.Fn.Crle
 import H4.Driver.Util
 namespace H4.Driver
 open H4.Rle
 
-/-- engine `rle` (stateless):  `enc <hex>` => compressed bytes;  `dec <hex>` => decoded bytes | fail -/
+/- function-level Tie A cross-run: `HCIcrle_encode` / `HCIcrle_term` / `HCIcrle_decode` as TRANSLATED from crle.c by gen/c2lean.py
+    (`H4.Gen.Fn.Crle`) are executed beside the hand-written model on every `T rle enc` / `T rle dec` line; a difference (or `ub` / `oof` /
+    an unexpected FAIL of the translated code) is appended as ` GEN=…` and so shows up as a DIFF against the real C
+    (`H4.Props.C05Rle` proves that no such difference exists).
+    The data is pushed through the translated functions twice: in ONE call (inputs up to `wholeMax` bytes: the translated code works on
+    linked lists, a call costs O(n²)) and as a SEQUENCE of calls of varying lengths (0, 1, 2, 3, 64, 127 … 131, 256 bytes) with the coder
+    record carried from call to call, as `HCPcrle_write` / `HCPcrle_read` do.  In the sequence every encode call starts with an empty
+    output stream and every decode call sees the input from its current position on (a window of 2·n + 200 bytes, enough for n output
+    bytes), so that a case costs O(n). -/
+namespace GenRle
+open H4.Gen.Fn.Crle H4.Gen.Crle
+def ints (l : List Byte) : List Int := l.map fun b => (b.toNat : Int)
+/-- `none` if a cell does not hold a `uint8` value -/
+def toBytes (l : List Int) : Option (List Byte) :=
+  if l.all (fun x => decide (0 ≤ x ∧ x < 256)) then some (l.map fun x => UInt8.ofNat x.toNat) else none
+def hex (l : List Int) : String := match toBytes l with | some b => toHex b | none => "range"
+def nil32 : Int := RLE_NIL % 4294967296
+def wholeMax : Nat := 1024
+def sizeAt (k : Nat) : Nat := [1, 2, 3, 127, 128, 129, 130, 131, 256, 0, 64].getD (k % 11) 1
+
+/-- the `comp_coder_rle_info_t` record between two calls -/
+structure Rec where
+  st : Int := 0
+  len : Int := 0
+  pos : Int := 0
+  last : Int := nil32
+  second : Int := nil32
+  offset : Int := 0
+  encoding : Int := 0
+  buffer : List Int := List.replicate RLE_BUF_SIZE 0
+
+def encCall (r : Rec) (bs : List Byte) : Except String (Rec × List Int) :=
+  let s := HCIcrle_encode bs.length r.encoding r.st r.buffer r.last r.len r.pos r.second r.offset bs.length (ints bs) []
+  if s.ub then .error "ub" else if s.oof then .error "oof" else if s.ret != 0 then .error "encode-fail"
+  else .ok ({ st := s.rle_rle_state, len := s.rle_buf_length, pos := s.rle_buf_pos, last := s.rle_last_byte, second := s.rle_second_byte,
+              offset := s.rle_offset, encoding := s.rle_encoding, buffer := s.rle_buffer }, s.io_out)
+
+/-- `HCPcrle_endaccess`: `if (encoding && rle_state != RLE_INIT) HCIcrle_term(info)` -/
+def termCall (r : Rec) : Except String (List Int) :=
+  if r.encoding ≠ 0 ∧ r.st ≠ 0 then
+    let s := HCIcrle_term 0 r.st r.len r.last r.buffer r.encoding r.second []
+    if s.ub then .error "ub" else if s.oof then .error "oof" else if s.ret != 0 then .error "term-fail" else .ok s.io_out
+  else .ok []
+
+def encSeq : Nat → Rec → List Byte → List (List Int) → Except String (List Int)
+  | 0, _, _, _ => .error "pieces"
+  | f + 1, r, bs, acc =>
+    if bs.isEmpty then do
+      let t ← termCall r
+      pure (t :: acc).reverse.flatten
+    else do
+      let n := sizeAt f
+      let (r', o) ← encCall r (bs.take n)
+      encSeq f r' (bs.drop n) (o :: acc)
+
+def encWhole (bs : List Byte) : Except String (List Int) := do
+  let (r, o) ← encCall {} bs
+  let t ← termCall r
+  pure (o ++ t)
+
+def show_ (model : String) (what : String) : Except String (List Int) → Option String
+  | .error e => some s!"{what}:{e}"
+  | .ok o => if hex o == model then none else some s!"{what}:{hex o}"
+
+def enc (bs : List Byte) (model : String) : String :=
+  let a := if bs.length ≤ wholeMax then show_ model "whole" (encWhole bs) else none
+  let b := show_ model "seq" (encSeq (2 * bs.length + 12) {} bs [])
+  match a, b with
+  | none, none => model
+  | some x, _ => s!"{model} GEN={x}"
+  | none, some y => s!"{model} GEN={y}"
+
+/-- one `HCIcrle_decode(n)` on the input `inp` from position `io_pos`; result: record, new position, the `n` bytes delivered -/
+def decCall (r : Rec) (n : Nat) (inp : List Int) (io_pos : Int) : Except String (Rec × Int × List Int) :=
+  let s := HCIcrle_decode n r.st r.len r.last r.buffer r.pos r.offset n (List.replicate n 0xA5) inp io_pos
+  if s.ub then .error "ub" else if s.oof then .error "oof" else if s.ret != 0 then .error "decode-fail"
+  else .ok ({ r with st := s.rle_rle_state, len := s.rle_buf_length, pos := s.rle_buf_pos, last := s.rle_last_byte, offset := s.rle_offset,
+                     buffer := s.rle_buffer }, s.io_pos, s.buf)
+
+/-- at the end of the data a further 1-byte read must return FAIL without ub -/
+def eofOk (r : Rec) (inp : List Int) (io_pos : Int) : Except String Unit :=
+  let s := HCIcrle_decode 1 r.st r.len r.last r.buffer r.pos r.offset 1 [0xA5] inp io_pos
+  if s.ub then .error "eof-ub" else if s.oof then .error "eof-oof" else if s.ret != -1 then .error "no-eof" else .ok ()
+
+def decSeq : Nat → Rec → List Int → Nat → List (List Int) → Except String (List Int)
+  | 0, _, _, _, _ => .error "pieces"
+  | f + 1, r, rest, want, acc =>
+    if want = 0 then do
+      if !rest.isEmpty then throw "trailing"
+      eofOk r rest 0
+      pure acc.reverse.flatten
+    else do
+      let n := min want (sizeAt f)
+      let (r', p, o) ← decCall r n (rest.take (2 * n + 200)) 0
+      decSeq f r' (rest.drop p.toNat) (want - n) (o :: acc)
+
+def decWhole (raw : List Byte) (n : Nat) : Except String (List Int) := do
+  let (r, p, o) ← decCall {} n (ints raw) 0
+  if p != raw.length then throw "trailing"
+  eofOk r (ints raw) p
+  pure o
+
+def dec (raw : List Byte) (n : Nat) (model : String) : String :=
+  let a := if raw.length ≤ wholeMax ∧ n ≤ 4 * wholeMax then show_ model "whole" (decWhole raw n) else none
+  let b := show_ model "seq" (decSeq (2 * n + 12) {} (ints raw) n [])
+  match a, b with
+  | none, none => model
+  | some x, _ => s!"{model} GEN={x}"
+  | none, some y => s!"{model} GEN={y}"
+end GenRle
+
+/-- engine `rle` (stateless):  `enc <hex>` => compressed bytes;  `dec <hex>` => decoded bytes | fail;
+    both also run the translated C functions (`GenRle`) -/
 def stepRle (args : List String) : String :=
   match args with
   | ["enc", d] => match parseHex d with
-    | some bs => toHex (compress bs)
+    | some bs => GenRle.enc bs (toHex (compress bs))
     | none => "bad-op"
   | ["dec", d] => match parseHex d with
     | some bs => match dec bs with
-      | some o => toHex o
+      | some o => GenRle.dec bs o.length (toHex o)
       | none => "fail"
     | none => "bad-op"
   | _ => "bad-op"
